@@ -20,6 +20,9 @@ CHECKS = {
  "C07": ("exploration", "history at the master port vs reference byte memory; ack monitors; backing-store comparison",
          "Every Wishbone adapter/memory configuration (91 quick) is driven with read/write/burst histories over a small aliasing window; each read is compared byte-wise (selected lanes) with a reference byte memory, the history ends with a full read sweep, pass-through DUTs are additionally compared with the backing Memory contents.",
          "trusted: simulator, RefMem replay in props/c07.py, Cache(reverse) lane mapping for initial content", "4 C07"),
+ "C08": ("exploration", "five-channel handshake logs with unique ids paired offline + online stability / grant-lock monitors, per master timing class",
+         "AXI-Lite and AXI4 shared interconnects and crossbars (1..3 x 1..3) under master BFMs of four timing classes (A LiteX-like, B data before address, C several outstanding, D heavy response back-pressure) and slave BFMs that accept AW/W/AR independently, queue and answer in order with random delay/resp. Class A and D must be violation-free outright; violations in B/C are named by root-cause classifiers over the recorded history.",
+         "trusted: simulator, BFMs in lib/bench/axil.py and lib/bench/axi.py, AMBA address model lib/models/axi.py", "4 C08"),
 }
 
 def main():
